@@ -100,6 +100,19 @@ Proof.
   unfold matches_some in Hm. rewrite Hm. reflexivity.
 Qed.
 
+(** Two ignore lists that agree on the paths of the directories on the way to the packages load the same packages:
+    what a list matches among other strings (".", "/", "./d", "d/", absolute paths, ...) does not count. *)
+Lemma load_project_only_directory_paths ig1 ig2 t l1 l2 :
+  load_project ig1 t = Some l1 -> load_project ig2 t = Some l2 ->
+  (forall p way d, In (p, way) (packages [] [] t) -> In d way -> matches_some ig1 d = matches_some ig2 d) ->
+  forall p, In p l1 <-> In p l2.
+Proof.
+  intros H1 H2 Hag p. rewrite (load_project_spec ig1 t l1 H1 p), (load_project_spec ig2 t l2 H2 p).
+  split; intros [way [Hin Hc]]; exists way; (split; [exact Hin|]); intros d Hd.
+  - rewrite <- (Hag p way d Hin Hd). apply Hc. exact Hd.
+  - rewrite (Hag p way d Hin Hd). apply Hc. exact Hd.
+Qed.
+
 Lemma load_project_fails ignore t :
   load_project ignore t = None <-> existsb (fun g => negb (well_escaped g)) ignore = true.
 Proof. unfold load_project. rewrite option_map_none. apply load_ignore_fails. Qed.
